@@ -603,6 +603,50 @@ def quote_trigger_rule(rep, prog, cfg):
         controls = bool(set(derived) & switches)
         triggers.append({"bb": bb, "chars": sorted(cs) if cs is not None else None, "controls_branch": controls})
     good = [x for x in triggers if x["chars"] is not None and {0x20, 0x09} <= set(x["chars"]) and x["controls_branch"]]
+    if not good and quote_push:
+        # loop form: `for c in argument.chars() { if <c is a separator> { needs_quotes = true } .. }` — the flag is the boolean
+        # local whose true edge leads to the push of the quote; the trigger set is computed exactly (A5, loop-body mode)
+        from .. import charset
+        IT_NEXT = "core::iter::traits::iterator::Iterator::next"
+        g = Cfg(b)
+        flags = set()
+        for bb in sorted(b.reachable()):
+            t = b.blocks[bb]["t"]
+            if t["k"] != "switch" or op_local(t["discr"]) is None:
+                continue
+            zero = [x for v, x in t["targets"] if v == 0]
+            if not zero:
+                continue
+            true_side = tables.exclusive(b, t["otherwise"], zero)
+            if any(q in true_side for q in quote_push):
+                l = op_local(t["discr"])
+                for _ in range(4):
+                    defs = [s2 for _, _, s2 in b.stmts() if s2["k"] == "assign" and s2["place"]["l"] == l and not s2["place"]["p"]]
+                    if len(defs) == 1 and defs[0]["rv"]["k"] == "use" and op_local(defs[0]["rv"]["op"]) is not None:
+                        l = op_local(defs[0]["rv"]["op"])
+                    else:
+                        break
+                flags.add(l)
+        for hbb, ht in [(bb, t) for bb, t in b.calls() if IT_NEXT in callee_names(t)]:
+            if ht.get("dest") is None or ht["dest"]["p"]:
+                continue
+            opt = ht["dest"]["l"]
+            sw = [x for x in tables.discr_switches(b) if x["place"]["l"] == opt and not x["place"]["p"]]
+            if len(sw) != 1:
+                continue
+            some_bb = sw[0]["arms"].get("Some", sw[0]["otherwise"])
+            if hbb not in g.reach([some_bb]):
+                continue
+            for fl_ in flags:
+                try:
+                    hit, width, ncells = charset.loop_flag_set(prog, b, some_bb, hbb, opt, fl_)
+                except charset.Opaque:
+                    continue
+                chars = {c for lo, hi in hit for c in range(lo, min(hi, 0x7F) + 1)}
+                tr = {"bb": hbb, "chars": sorted(chars), "controls_branch": True, "form": "loop"}
+                triggers.append(tr)
+                if {0x20, 0x09} <= chars:
+                    good.append(tr)
     rep.check(bool(good) and bool(quote_push), rule, cfg + "/blank and tab force quoting", b.loc(b.span),
               "the escaping routine has no recognised quoting decision covering both separators: expected `argument.contains(<constant set including ' ' and '\\t'>)` "
               "controlling the push of '\"'; found membership tests %s and %d quote pushes (a parameter with the missing separator would arrive as two arguments)"
